@@ -29,6 +29,8 @@ def compile_cfg(stmts):
         return len(code)  # 1-based index of the instruction just added
 
     def cond(c):
+        if c[0] == "tickwide":
+            return "", "tickge", c[2]       # identical meaning in the specification
         return (c[1] if c[0] != "tickge" else ""), c[0], c[2]
 
     def gen(ss):
@@ -89,6 +91,8 @@ def compile_cfg(stmts):
 def c_cond(c):
     if c[0] == "tickge":
         return "(vp_tick >= %d)" % c[2]
+    if c[0] == "tickwide":     # same truth value, but a 64-bit quantity whose low 32 bits are zero (conditions need not be int)
+        return "((unsigned long long)(vp_tick >= %d) << 40)" % c[2]
     op = {"lt": "<", "eq": "==", "ge": ">="}[c[0]]
     return "(c->%s %s %d)" % (c[1], op, c[2])
 
@@ -178,6 +182,11 @@ def blockers():
     B.append(("call0", [["call", 0]]))
     B.append(("call2", [["call", 2], ["eff", 9]]))
     B.append(("call5", [["call", 5]]))
+    B.append(("call0_spawn0", [["call", 0], ["spawn", 0], ["if_child_ok", [["eff", 7]], [["eff", 8]]]]))      # same child pt_t driven by PT_CALL, then spawned
+    B.append(("call2_spawn2", [["call", 2], ["spawn", 2], ["if_child_ok", [["eff", 7]], [["eff", 8]]]]))
+    B.append(("spawn4_call4", [["spawn", 4], ["call", 4], ["eff", 9]]))
+    B.append(("wu_wide", [["wait_until", ["tickwide", "", 3]]]))
+    B.append(("exit_wide", [["exit_on", ["tickwide", "", 2]], ["yield"]]))
     return B
 
 
